@@ -280,6 +280,12 @@ def prove(prog, s, ctx):
                     rs = [c for c in calls if c['callee']['name'] == 'resize' and uncast(R.render(c['obj'])) == C]
                     if len(rs) == 1 and P.equal(P.poly(f, rs[0]['args'][0], R), P.add(ip, P.const(1))) and not shrinks_between(prog, f, C, rs[0]['id'], s.nid):
                         return 'ok', 'G2', 'dominated by `if (%s >= %s) resize(%s + 1)`' % (I, size, I)
+        # G2b: `C.resize(I + 1)` is a preceding statement of the same (or an enclosing) block
+        for st in preceding_statements(f, s.nid):
+            sn = f.nodes[f.strip(st, 'all')]
+            if sn['k'] == 'CXXMemberCallExpr' and sn['callee']['name'] == 'resize' and len(sn.get('args', [])) in (1, 2) and sn.get('obj') is not None and \
+                    uncast(R.render(sn['obj'])) == C and P.equal(P.poly(f, sn['args'][0], R), P.add(ip, P.const(1))) and not shrinks_between(prog, f, C, sn['id'], s.nid):
+                return 'ok', 'G2', 'preceded by %s.resize(%s + 1)' % (C, I)
         # G2c: the container was resized to N on a dominating path and the index is a loop variable below N
         for l, op, r, _ in facts:
             if l == I and op == '<':
